@@ -50,6 +50,8 @@ type XStep struct {
 	Depth int    `json:"depth,omitempty"`
 	GoT   string `json:"go_type,omitempty"`
 	GoV   string `json:"go_val,omitempty"`
+	// Stride: flip_all / trunc_all / del_all visit every Stride-th position (0 = every one)
+	Stride int `json:"stride,omitempty"`
 }
 
 type WirePlan struct {
@@ -104,7 +106,7 @@ func (p *WirePlan) Simpler() []Plan {
 			if hi < 0 {
 				hi = 1 << 15
 			}
-			if hi > s.Lo {
+			if hi > s.Lo && s.Lo >= 0 {
 				mid := (s.Lo + hi) / 2
 				mut(func(q *WirePlan) bool { q.Steps[i].Hi = mid; return true })
 				mut(func(q *WirePlan) bool { q.Steps[i].Lo = mid + 1; q.Steps[i].Hi = hi; return true })
@@ -738,12 +740,26 @@ func (e *wireExec) step(s *XStep) {
 		}
 		return s.Hi
 	}
+	// a negative Lo counts from the end; Stride > 1 visits every Stride-th position
+	loOf := func(n int) int {
+		if s.Lo < 0 {
+			if n+s.Lo < 0 {
+				return 0
+			}
+			return n + s.Lo
+		}
+		return s.Lo
+	}
+	stride := s.Stride
+	if stride < 1 {
+		stride = 1
+	}
 	switch s.Op {
 	case "roundtrip":
 		e.roundtrip(w)
 	case "flip_all":
 		hi := hiOf(len(data)*8 - 1)
-		for bit := s.Lo; bit <= hi; bit++ {
+		for bit := loOf(len(data) * 8); bit <= hi; bit += stride {
 			m := flipBit(data, bit)
 			acc := e.offer(m, codec, kind, true, bit%64 == 0)
 			cl := byteClass(env, bit/8)
@@ -754,7 +770,7 @@ func (e *wireExec) step(s *XStep) {
 		}
 	case "trunc_all":
 		hi := hiOf(len(data) - 1)
-		for k := s.Lo; k <= hi; k++ {
+		for k := loOf(len(data)); k <= hi; k += stride {
 			m := data[:k]
 			acc := e.offer(m, codec, kind, true, false)
 			o.Fault("truncation")
@@ -763,7 +779,7 @@ func (e *wireExec) step(s *XStep) {
 		}
 	case "del_all":
 		hi := hiOf(len(data) - 1)
-		for k := s.Lo; k <= hi; k++ {
+		for k := loOf(len(data)); k <= hi; k += stride {
 			m := append(append([]byte{}, data[:k]...), data[k+1:]...)
 			acc := e.offer(m, codec, kind, true, false)
 			o.Fault("byte_deletion")
@@ -1096,6 +1112,65 @@ func (e *wireExec) sigStep(s *XStep, w *wireTok, env *envelope) {
 		hdrs := map[string][]byte{"ed25519": {0x34, 0xed, 0x01, 0x71}, "rsa": {0x34, 0x85, 0x24, 0x12, 0x80, 0x02, 0x71}, "secp256k1": {0x34, 0xe7, 0x01, 0x12, 0x71}, "ecdsa": {0x34, 0x80, 0xa4, 0xc0, 0x06, 0x12, 0x71}}
 		names := []string{"ed25519", "rsa", "secp256k1", "ecdsa"}
 		m.sp.MapSet("h", cbBytes(hdrs[names[s.Val%4]]))
+	case "hostile_header":
+		// a varsig header whose varints declare absurd sizes (an RSA header names its signature
+		// length), with the real or a one-byte signature; nothing here is signed, the decoder has
+		// only the issuer's key type to go by
+		huge := []uint64{1 << 28, 1 << 31, 1 << 40, 1 << 50, 1<<63 - 1, 1<<64 - 1}[s.Val%6]
+		var hdr []byte
+		if s.At%2 == 0 && poolRSA {
+			// an RSA issuer (any key of the pool) and the RSA header with the length rewritten
+			rsa := key(normPrincipal(Principal{"rsa", s.At / 2})).id.String()
+			for i := 0; i+1 < len(m.sp.Kids); i += 2 {
+				if strings.HasPrefix(string(m.sp.Kids[i].Data), "ucan/") {
+					m.sp.Kids[i+1].MapSet("iss", cbText(rsa))
+				}
+			}
+			var vb bytes.Buffer
+			vb.Write([]byte{0x34, 0x85, 0x24, 0x12})
+			putUvarint(&vb, huge)
+			vb.WriteByte(0x71)
+			hdr = vb.Bytes()
+		} else {
+			// the token's own header with one of its varints rewritten
+			var own []byte
+			for i := 0; i+1 < len(m.sp.Kids); i += 2 {
+				if string(m.sp.Kids[i].Data) == "h" {
+					own = m.sp.Kids[i+1].Data
+				}
+			}
+			var parts [][]byte
+			for off := 0; off < len(own); {
+				_, n, verr := getUvarint(own[off:])
+				if verr != nil || n == 0 {
+					break
+				}
+				parts = append(parts, own[off:off+n])
+				off += n
+			}
+			if len(parts) == 0 {
+				return
+			}
+			var vb bytes.Buffer
+			for i, pt := range parts {
+				if i == (s.At/2)%len(parts) {
+					putUvarint(&vb, huge)
+				} else {
+					vb.Write(pt)
+				}
+			}
+			hdr = vb.Bytes()
+		}
+		m.sp.MapSet("h", cbBytes(hdr))
+		if (s.Val/6)%2 == 0 {
+			m.sig.Data = []byte{0x01}
+		}
+		data := m.root.Encode()
+		acc := e.offer(data, "cbor", w.spec.Kind, false, true)
+		o.Fault("hostile_header")
+		o.Sig("C09", "hostile-header", w.alg, s.At%2, s.Val%6, len(acc) > 0)
+		e.conservation(acc, w, data, "hostile varsig header", desc, "cbor")
+		return
 	case "unknown_header":
 		m.sp.MapSet("h", cbBytes([]byte{0x34, byte(s.Val), 0x71}))
 	case "no_header":
@@ -1559,7 +1634,7 @@ func (e *wireExec) byzStep(s *XStep, w *wireTok, env *envelope) {
 		mustReject = true
 		desc = fmt.Sprintf("nonce of %d bytes", n)
 	case "bad_cmd":
-		c := []string{"a/b", "/A", "/a/", "", "//", "/a//b"}[s.Val%6]
+		c := []string{"a/b", "/A", "/a/", "", "//", "/a//b", "/crud/\u00c9dit", "/\u0394/read", "/store/\u0414", "/a/B/c", "/stra\u1e9ee"}[s.Val%11]
 		pl.MapSet("cmd", cbText(c))
 		mustReject = !validCommandModel(c)
 		desc = fmt.Sprintf("cmd %q", c)
